@@ -352,14 +352,30 @@ pub fn cached_taylor(f: Func, a0: DD, k: usize) -> Vec<DD> {
 /// unary smooth function: value, majorant M = sum |c_k| |N|^k, propagated input error |g'|(|X|) E_in
 fn smooth(f: Func, x: &Val, kap: f64, u: f64) -> Val {
     let k = x.v.shape.maxdeg;
-    let c = cached_taylor(f, *x.v.re(), k + 1);
+    let has_err = x.e.c.iter().any(|c| !c.is_zero());
+    let c = cached_taylor(f, *x.v.re(), if has_err { k + 3 } else { k + 1 });
     let v = x.v.apply(&c[..=k]);
     let ax = x.v.abs();
     let m = ax.apply(&abs_coefs(&c[..=k]));
     let mut e = m.scale(&DD::f(kap * u));
-    if x.e.c.iter().any(|c| !c.is_zero()) {
-        let dg = ax.apply(&abs_coefs(&deriv_coefs(&c)));
-        e = e.add(&dg.mul(&x.e));
+    if has_err {
+        // g(X + E) - g(X) <= sum_j |g^(j)|(|X|) E^j / j!  (j = 1: the first-order bound; the
+        // higher terms matter only where the first-order term vanishes)
+        let mut dc = c.clone();
+        let mut ej = x.e.clone();
+        let mut fact = 1.0;
+        for j in 1..=3usize {
+            dc = deriv_coefs(&dc);
+            fact *= j as f64;
+            if dc.len() <= k || dc.iter().any(|c| !c.is_finite()) {
+                break;
+            }
+            let dg = ax.apply(&abs_coefs(&dc[..=k]));
+            e = e.add(&dg.mul(&ej).scale(&DD::f(1.0 / fact)));
+            if j < 3 {
+                ej = ej.mul(&x.e);
+            }
+        }
     }
     Val { v, e }
 }
